@@ -510,6 +510,27 @@ pub fn gen_content(rng: &mut Rng, o: &GenOpts) -> RefArchive {
         let s = rng.pick(&pool).clone();
         names.push(s);
     }
+    if rng.chance(1, 16) {
+        // two distinct strings that collide under a common hash function
+        let (a, b) = *rng.pick(&crate::refs::strings::COLLIDING_PAIRS);
+        let (x, y) = if rng.bool() { (a, b) } else { (b, a) };
+        match rng.below(3) {
+            0 => {
+                pool.push(x.to_string());
+                pool.push(y.to_string());
+            }
+            1 => {
+                names.push(x.to_string());
+                names.push(y.to_string());
+            }
+            _ => {
+                pool.push(x.to_string());
+                names.push(y.to_string());
+                names.push(x.to_string());
+                pool.push(y.to_string());
+            }
+        }
+    }
     let density = rng.range(0, 4); // of 4
     for c in 0..cells {
         let cell = c * 4;
@@ -550,7 +571,7 @@ pub fn gen_content(rng: &mut Rng, o: &GenOpts) -> RefArchive {
 /// Contents built around table-size thresholds (C01/C02 domain): exact pointer-table entry counts
 /// and label counts at and around 128/256/512/4096/65536, and text sections longer than 64 KiB in
 /// which late strings are referenced again. `which` enumerates the variants; returns None past the end.
-pub const THRESHOLD_VARIANTS: usize = 13 + 12 + 3;
+pub const THRESHOLD_VARIANTS: usize = 13 + 12 + 3 + 2 + 2;
 
 pub fn threshold_content(rng: &mut Rng, which: usize, cstrings: bool) -> Option<(String, RefArchive)> {
     use crate::refs::strings::{gen_ident, gen_sjis};
@@ -630,6 +651,43 @@ pub fn threshold_content(rng: &mut Rng, which: usize, cstrings: bool) -> Option<
             m.labels.entry(((i * 29 + 5) % cells) * 4).or_default().push(fresh);
         }
         return Some((format!("text_section_beyond_64KiB_variant_{}", which), m));
+    }
+    let which = which - 3;
+    if which < 2 {
+        // many distinct strings / names of one family (a fixed prefix and a running number), and the
+        // string pairs known to collide under the hash functions a Rust crate has at hand: every
+        // distinct string keeps its own identity in the pool
+        let mut strs: Vec<String> = if which == 0 { (0..600).map(|i| format!("MID_{:05}", i)).collect() } else { (0..300).map(|i| format!("PID_{:04}_H", i)).collect() };
+        for (a, b) in crate::refs::strings::COLLIDING_PAIRS {
+            strs.push(a.to_string());
+            strs.push(b.to_string());
+        }
+        rng.shuffle(&mut strs);
+        let cells = strs.len() + 16;
+        m.data = rng.bytes(cells * 4);
+        for (i, s) in strs.iter().enumerate() {
+            m.text.insert(i * 4, s.clone());
+        }
+        for (i, s) in strs.iter().enumerate() {
+            if i % 2 == which {
+                m.labels.entry(((i * 7) % cells) * 4).or_default().push(s.clone());
+            }
+        }
+        return Some((format!("string_family_and_hash_colliding_pairs_variant_{}", which), m));
+    }
+    let which = which - 2;
+    if which < 2 {
+        // one very long string and one very long label name: a little over 1 MiB, or over 16 MiB
+        // (nothing in the format bounds the length of a string)
+        let n = if which == 0 { (1usize << 20) + 16 } else { (1usize << 24) + 16 };
+        m.data = rng.bytes(16);
+        let long: String = (0..n).map(|i| (b'a' + (i % 23) as u8) as char).collect();
+        m.text.insert(4, long);
+        m.text.insert(8, "short".to_string());
+        let long_name: String = (0..n / 2 + 5).map(|i| (b'A' + (i % 19) as u8) as char).collect();
+        m.labels.entry(8).or_default().push(long_name);
+        m.labels.entry(0).or_default().push("first".to_string());
+        return Some((format!("string_of_{}_bytes", n), m));
     }
     None
 }
